@@ -84,7 +84,7 @@ func syntheticZone(fallBack time.Time) (*time.Location, error) {
 	for _, c := range []int32{0, 0, 0, 2, 2, 8} { // isutcnt, isstdcnt, leapcnt, timecnt, typecnt, charcnt
 		be32(c)
 	}
-	be32(1_000_000_000)           // transition 0: long ago -> type 0 (summer time)
+	be32(1_000_000_000)          // transition 0: long ago -> type 0 (summer time)
 	be32(int32(fallBack.Unix())) // transition 1: clocks go back one hour -> type 1
 	b = append(b, 0, 1)
 	be32(3600)
